@@ -147,6 +147,14 @@ def points(tier: str) -> List[Dict[str, Any]]:
                 for step in (0.75, 0.85):
                     pts.append({"delay": delay, "forced": None, "jitter": 0.0, "types": "a", "peer": {"before": before, "step": step},
                                 "events": [(20_000, ("ptr", X, ttl))]})
+    # late wake-ups: two records learned a few seconds apart, the loop stalled across the first one's refresh instant
+    for delay in (10_000, 60_000):
+        for second_after in (3_000, 7_000, delay):
+            for step in (0.75, 0.85):
+                for frac in (0.1, 0.25, 0.6, 0.9):
+                    pts.append({"delay": delay, "forced": None, "jitter": 0.0, "types": "a",
+                                "stall": {"step": step, "ms": int(frac * delay)},
+                                "events": [(20_000, ("ptr", X, 4500)), (second_after, ("ptr", Y, 4500))]})
     # pointers already cached when the browser is created (younger / older than half their TTL, shortly before it starts)
     for delay in (1000, 10_000):
         for pre in ([(30_000, ("ptr", X, 4500))], [(30_000, ("ptr", X, 1200))], [(1_000, ("ptr", X, 4500))],
@@ -259,6 +267,14 @@ def run_point(p: Dict[str, Any], verbose: bool = False) -> Tuple[Optional[Dict[s
             ka = [("PTR", TA, 1, iv0["ttl"], iv0["alias"]), ("PTR", TA, 1, 4500, OWN.name)]
             w.loop.call_at((t_due - p["peer"]["before"]) / 1000, w.net.inject, host,
                            wire.query([("Q", TA, 12, 1)], answers=ka, id_=0x7E), ("10.0.0.60", 5353))
+        if p.get("stall") and intervals:
+            # the event loop is busy elsewhere (a blocking handler, a suspended process) across a refresh instant and serves the
+            # wake-up `ms` late; another record's refresh falls due shortly after - still a full delay after the late query
+            iv0 = intervals[0]
+            t_due = iv0["created"] + p["stall"]["step"] * iv0["ttl"] * 1000
+            if t_due - 1 > w.now_ms:
+                w.advance_to_ms(t_due - 1)
+                w.loop.now_us += int(p["stall"]["ms"] * 1000)
         # run until everything has expired and been purged
         horizon = max([iv["created"] + iv["ttl"] * 1000 for iv in intervals] + [w.now_ms]) + 25_000 + delay
         horizon = max(horizon, t_start + 20_000 + 2 * delay)
